@@ -509,12 +509,18 @@ class ParserBinary(ParserBase):
             self._parsed_values[name] = None
         else:
             value = value[0]
+            millis = 0
             if milliseconds:
                 millis = value % 1000
                 value //= 1000
-            value = datetime.datetime.fromtimestamp(0x00000000ffffffff & value, dateutil.tz.UTC)
-            if milliseconds:
-                value += datetime.timedelta(milliseconds=millis)
+            try:
+                value = datetime.datetime(1970, 1, 1, tzinfo=dateutil.tz.UTC) + datetime.timedelta(
+                    seconds=value, milliseconds=millis
+                )
+            except OverflowError as e:
+                # later than 9999-12-31: not a point in time datetime can carry
+                six.raise_from(InvalidValue(self._parsable[self._parsed_length - parsed_length:self._parsed_length],
+                                            type(self), name), e)
             self._parsed_values[name] = value
 
     def _parse_numeric_array(self, name, item_num, item_size, item_numeric_class):
